@@ -1,5 +1,6 @@
 //! Generic SQL runner: {"tables":[spec...], "queries":["SELECT ...", ...], "memory_limit": n?}
-//! -> {"results":[{"ok":{cols,types,rows}} | {"err":..} | {"panic":..}, ...]}
+//!  optional "noopt": true also runs every query through the bound, unoptimised plan
+//! -> {"results":[{"ok":{cols,types,rows}} | {"err":..} | {"panic":..}, ...], "noopt":[...]}
 use qe_verif_harness::sqlutil;
 use serde_json::{json, Value};
 
@@ -20,6 +21,16 @@ fn main() {
             .iter()
             .map(|q| sqlutil::run_sql(&rt, &ctx, q.as_str().unwrap()))
             .collect();
-        json!({ "results": results })
+        let mut out = json!({ "results": results });
+        if v.get("noopt").and_then(|b| b.as_bool()).unwrap_or(false) {
+            let r2: Vec<Value> = v["queries"]
+                .as_array()
+                .unwrap()
+                .iter()
+                .map(|q| sqlutil::run_sql_noopt(&rt, &ctx, q.as_str().unwrap()))
+                .collect();
+            out["noopt"] = Value::Array(r2);
+        }
+        out
     });
 }
